@@ -77,7 +77,14 @@ func inForce(fields map[string]string) (map[string]string, *chain.ConfigData, er
 	for k, v := range fields {
 		cp[k] = v
 	}
-	err := chain.NewConfigImpl(cd).Update(cp, 1)
+	err := func() (err error) {
+		defer func() {
+			if r := recover(); r != nil {
+				err = fmt.Errorf("PANIC: %v", r)
+			}
+		}()
+		return chain.NewConfigImpl(cd).Update(cp, 1)
+	}()
 	return cfgView(cd), cd, err
 }
 
@@ -163,7 +170,8 @@ func representable(v string, typ string, kind reflect.Kind) (string, bool) {
 		return fmt.Sprintf("%#v", int(x)), err == nil
 	case kind == reflect.Float64:
 		x, err := strconv.ParseFloat(v, 64)
-		return fmt.Sprintf("%#v", x), err == nil && !math.IsNaN(x)
+		_ = math.NaN
+		return fmt.Sprintf("%#v", x), err == nil
 	case kind == reflect.Bool:
 		x, err := strconv.ParseBool(v)
 		return fmt.Sprintf("%#v", x), err == nil
@@ -276,7 +284,11 @@ func c48globals(run *ev.Run) {
 		after, ea, eb := load(gc.Post)
 		run.Add(0, 0, 2)
 		if (ea != nil || eb != nil) && e0a == nil && e0b == nil {
-			run.Violation("C48:minersc.update_globals:accepted-value-makes-chain-config-update-fail:"+gc.Key,
+			kind := "fail"
+			if ea != nil && strings.HasPrefix(ea.Error(), "PANIC") {
+				kind = "panic"
+			}
+			run.Violation("C48:minersc.update_globals:accepted-value-makes-chain-config-update-"+kind+":"+gc.Key,
 				fmt.Sprintf("update_globals{%s=%q} is accepted and stored, but chain.ConfigImpl.Update on the stored settings returns an error (node A: %v, node B: %v): the settings read after it never come into force", gc.Key, gc.Value, ea, eb), replay)
 			continue
 		}
@@ -300,7 +312,8 @@ func c48globals(run *ev.Run) {
 			}
 			want, ok := representable(gc.Value, typeOf[gc.Key], kindOf[gc.Key])
 			switch {
-			case !ok && (kindOf[gc.Key] == reflect.Int8 || typeOf[gc.Key] == "map[string]bool" || f == "VerificationTicketsTo"):
+			case f == "BlockProposalWaitMode" || f == "VerificationTicketsTo" || f == "TxnExempt":
+				// fields the consumer derives from a string by a mapping: only the node-independence oracle applies
 			case f == "MaxTxnFee" && want == "0x0", f == "SmartContractTimeout" && want == "0":
 				// documented defaults replace a zero value
 			case !ok:
